@@ -48,6 +48,10 @@ def _fault(seam, counter):
             raise ValueError("simulated %s failure #%d" % (seam, n))
         if kind.endswith("runtimeerror"):
             raise RuntimeError("simulated %s failure #%d" % (seam, n))
+        if kind.endswith("abort"):
+            from zcsim.world import SimAbort
+            raise SimAbort("simulated interruption in %s call #%d"
+                           % (seam, n))
         raise AssertionError("unknown callback fault %r" % kind)
 
 
